@@ -308,6 +308,7 @@ def _simple_arg(e):
         e = e.get('arg') or e.get('source')
     if not isinstance(e, dict): return False
     if e['k'] in ('VarRef', 'UpvarRef', 'Literal', 'NamedConst', 'ZstLiteral'): return True
+    if e['k'] == 'Adt' and not e.get('fields') and e.get('base') is None: return True          # a unit variant / unit struct: a constant
     if e['k'] == 'Field': return _simple_arg(e['lhs'])
     if e['k'] == 'Closure': return True
     if e['k'] == 'Call' and len(e.get('args', [])) == 1 and callee_decl(e) in ('std::ops::Deref::deref', 'std::convert::AsRef::as_ref', 'std::clone::Clone::clone', 'std::borrow::Borrow::borrow'):
@@ -331,7 +332,7 @@ class Inliner:
         self.n = 0
         self.inlined = []       # (caller, callee)
         self.base = baseline_fns()
-    def candidate(self, g, caller, allow_try=False):
+    def candidate(self, g, caller, allow_try=False, allow_ret=False):
         c = self.c
         if g is None or g == caller or g in self.base or g not in c.thir or '{closure' in g: return False
         f = c.fns.get(g)
@@ -352,7 +353,7 @@ class Inliner:
                     for y in _all_nodes(a['body']):
                         if y.get('k') == 'Return': try_returns.add(id(y))
         for x in _all_nodes(t['body']):
-            if x.get('k') == 'Return' and not (allow_try and id(x) in try_returns): return False
+            if x.get('k') == 'Return' and not (allow_try and id(x) in try_returns) and not allow_ret: return False
             if x.get('k') == 'Call' and callee_name(x) == g: return False
         return True
     def subst(self, node, m, clos):
@@ -404,13 +405,14 @@ class Inliner:
                         sc2 = dict(sc); sc2['args'] = [r]; out['scrutinee'] = sc2
                         return out
         if out.get('k') == 'Call' and depth < 4:
-            r = self.inline_call(out, caller, depth)
+            # a call whose value is the caller's own result (`fn f(..) -> T { ..; helper(..) }`): leaving the helper early is leaving the caller
+            r = self.inline_call(out, caller, depth, allow_ret=bool(out.get('#tail')) and depth == 0)
             if r is not None: return r
         return out
-    def inline_call(self, out, caller, depth, allow_try=False):
+    def inline_call(self, out, caller, depth, allow_try=False, allow_ret=False):
         if True:
             g = callee_name(out)
-            if self.candidate(g, caller, allow_try):
+            if self.candidate(g, caller, allow_try, allow_ret):
                 t = self.c.thir[g]
                 m = {}; lets = []
                 ok = len(t['params']) == len(out['args'])
@@ -449,14 +451,33 @@ def build_inlined_view(c):
     c.inlined = []
     if new and base:
         inl = Inliner(c)
+        def mark_tail(e):
+            k = e.get('k')
+            if k == 'Block':
+                if e.get('expr') is not None: mark_tail(e['expr'])
+            elif k == 'If':
+                mark_tail(e['then'])
+                if e.get('else') is not None: mark_tail(e['else'])
+            elif k == 'Match' and 'Desugar' not in str(e.get('source')):
+                for a in e['arms']: mark_tail(a['body'])
+            elif k in ('Use', 'NeverToAny', 'Scope'):
+                mark_tail(e.get('source') or e.get('value'))
+            elif k == 'Call': e['#tail'] = True
         for name, t in list(c.thir.items()):
             if '{closure' in name: continue
+            mark_tail(t['body'])
             nb = inl.expand(t['body'], name, 0)
             if inl.inlined and nb != t['body']:
                 nt = dict(t); nt['body'] = nb
                 c.ithir[name] = nt
         c.inlined = sorted(set(inl.inlined))
     args_as_fields(c)
+    # counting while loops read as the `for` loops they spell out
+    for name, t in list(c.ithir.items()):
+        if any(x.get('k') == 'Loop' and 'ForLoop' not in str(x.get('exp')) for x in walk(t['body'])):
+            nb = counting_whiles_as_for(t['body'])
+            if any(isinstance(x, dict) and x.get('synthetic') == 'counting-while' for x in _all_nodes(nb)):
+                nt = dict(t); nt['body'] = nb; c.ithir[name] = nt
 
 def args_as_fields(c):
     """`let Args { model, input, .. } = Args::parse();` reads as `let args = Args::parse();` with every use of an (immutable) destructured
@@ -547,6 +568,299 @@ def extend_map_as_loops(body, crate):
                             'scrutinee': {'k': 'Call', 'callee': {'def': 'std::iter::IntoIterator::into_iter', 'res': 'std::iter::IntoIterator::into_iter'}, 'loc': loc, 'ty': ty, 'args': [rewrite(it['args'][0])]},
                             'arms': [{'pat': {'k': 'Binding', 'name': 'iter', 'var': itv, 'by_ref': False, 'mutable': True}, 'guard': None,
                                       'body': {'k': 'Loop', 'loc': loc, 'ty': ty, 'body': {'k': 'Block', 'stmts': [{'k': 'Expr', 'expr': inner}], 'expr': None, 'loc': loc, 'ty': ty}}}]}
+        return {k_: (rewrite(v) if isinstance(v, (dict, list)) else v) for k_, v in x.items()}
+    return rewrite(body)
+
+def iter_chains_as_loops(body, crate):
+    """a copy of `body` in which iterator chains that feed a `for` loop or an `extend` read as the loop nests they abbreviate:
+        for P in S.map(|q| E) { B }            =>  for q in S { let P = E; B }
+        for P in S.filter(|q| C) { B }         =>  for x in S { let q = &x; if C { let P = x; B } }
+        for P in S.flat_map(|a| T) { B }       =>  for a in S { for P in T { B } }
+        T.extend(S)                            =>  for x in S { T.push(x) }
+    applied repeatedly, also through one immutable local that names the chain (`let pairs = ..; for (a, b) in pairs`).  The order of the
+    elements and the laziness of the adaptors make the loop nest visit exactly the same items in the same order."""
+    import copy
+    thir = getattr(crate, 'ithir', crate.thir)
+    cnt = [0]
+    def peel(x):
+        while isinstance(x, dict) and x.get('k') in ('Use', 'NeverToAny', 'Scope'): x = x.get('source') or x.get('value')
+        return x
+    def fresh(nm):
+        cnt[0] += 1
+        return '%s#chain%d' % (nm, cnt[0])
+    def mk_for(iter_expr, pat, body_block, loc, ty):
+        itv = fresh('iter')
+        inner = {'k': 'Match', 'source': 'ForLoopDesugar', 'loc': loc, 'ty': ty, 'synthetic': 'iter-chain',
+                 'scrutinee': {'k': 'Call', 'callee': {'def': 'std::iter::Iterator::next', 'res': 'std::iter::Iterator::next'}, 'loc': loc, 'ty': ty,
+                               'args': [{'k': 'Borrow', 'mut': True, 'loc': loc, 'ty': ty, 'arg': {'k': 'VarRef', 'var': itv, 'loc': loc, 'ty': ty}}]},
+                 'arms': [{'pat': {'k': 'Variant', 'adt': 'std::option::Option', 'variant': 'None', 'subs': [], 'nfields': 0}, 'guard': None, 'body': {'k': 'Break', 'label': None, 'value': None, 'loc': loc, 'ty': ty}},
+                          {'pat': {'k': 'Variant', 'adt': 'std::option::Option', 'variant': 'Some', 'nfields': 1, 'subs': [{'field': 0, 'pat': pat}]}, 'guard': None, 'body': body_block}]}
+        return {'k': 'Match', 'source': 'ForLoopDesugar', 'loc': loc, 'ty': ty, 'synthetic': 'iter-chain',
+                'scrutinee': {'k': 'Call', 'callee': {'def': 'std::iter::IntoIterator::into_iter', 'res': 'std::iter::IntoIterator::into_iter'}, 'loc': loc, 'ty': ty, 'args': [iter_expr], 'from_hir_call': True},
+                'arms': [{'pat': {'k': 'Binding', 'name': 'iter', 'var': itv, 'by_ref': False, 'mutable': True, 'sub': None}, 'guard': None,
+                          'body': {'k': 'Loop', 'loc': loc, 'ty': ty, 'body': {'k': 'Block', 'stmts': [{'k': 'Expr', 'expr': inner}], 'expr': None, 'loc': loc, 'ty': ty, 'targeted_by_break': False}}}]}
+    def block(stmts, loc, ty): return {'k': 'Block', 'stmts': stmts, 'expr': None, 'loc': loc, 'ty': ty, 'targeted_by_break': False, 'synthetic': 'iter-chain'}
+    def let(pat, init, loc): return {'k': 'Let', 'pat': pat, 'init': init, 'else': None, 'loc': loc, 'synthetic': 'iter-chain'}
+    def closure_of(e):
+        e = peel(e)
+        while isinstance(e, dict) and e.get('k') in ('Borrow', 'Deref'): e = peel(e['arg'])
+        if not isinstance(e, dict) or e.get('k') != 'Closure': return None
+        ct = thir.get(canon(e['def']))
+        if ct is None or len(ct['params']) != 2 or ct['params'][1].get('pat') is None: return None
+        if any(y['k'] == 'Return' for y in walk(ct['body'])): return None
+        return copy.deepcopy(ct['params'][1]['pat']), copy.deepcopy(ct['body'])
+    def lower(src, pat, body_block, lets, loc, ty, depth=0):
+        """the loop nest for `for pat in src { body_block }`; None when src is not an adaptor chain (the caller keeps the plain loop)"""
+        e = peel(src)
+        if e.get('k') in ('VarRef',) and e['var'] in lets and depth < 6:
+            return lower(lets[e['var']], pat, body_block, lets, loc, ty, depth + 1) or mk_for(lets[e['var']], pat, body_block, loc, ty)
+        if e.get('k') != 'Call' or depth > 6: return None
+        d = callee_decl(e) or ''
+        if d == 'std::iter::Iterator::map' and len(e['args']) == 2:
+            cl = closure_of(e['args'][1])
+            if cl is None: return None
+            q, expr = cl
+            inner = block([let(pat, expr, loc), {'k': 'Expr', 'expr': body_block}], loc, ty)
+            return lower(e['args'][0], q, inner, lets, loc, ty, depth + 1) or mk_for(e['args'][0], q, inner, loc, ty)
+        if d == 'std::iter::Iterator::filter' and len(e['args']) == 2:
+            cl = closure_of(e['args'][1])
+            if cl is None: return None
+            q, cond = cl
+            x = fresh('item')
+            xref = {'k': 'VarRef', 'var': x, 'loc': loc, 'ty': e.get('ty')}
+            guarded = {'k': 'If', 'cond': cond, 'then': block([let(pat, xref, loc), {'k': 'Expr', 'expr': body_block}], loc, ty), 'else': None, 'loc': loc, 'ty': ty, 'synthetic': 'iter-chain'}
+            inner = block([let(q, {'k': 'Borrow', 'mut': False, 'arg': xref, 'loc': loc, 'ty': e.get('ty')}, loc), {'k': 'Expr', 'expr': guarded}], loc, ty)
+            xpat = {'k': 'Binding', 'name': 'item', 'var': x, 'by_ref': False, 'mutable': False, 'sub': None, 'loc': loc}
+            return lower(e['args'][0], xpat, inner, lets, loc, ty, depth + 1) or mk_for(e['args'][0], xpat, inner, loc, ty)
+        if d == 'std::iter::Iterator::flat_map' and len(e['args']) == 2:
+            cl = closure_of(e['args'][1])
+            if cl is None: return None
+            q, inner_iter = cl
+            nested = lower(inner_iter, pat, body_block, lets, loc, ty, depth + 1) or mk_for(inner_iter, pat, body_block, loc, ty)
+            inner = block([{'k': 'Expr', 'expr': nested}], loc, ty)
+            return lower(e['args'][0], q, inner, lets, loc, ty, depth + 1) or mk_for(e['args'][0], q, inner, loc, ty)
+        return None
+    def chain_lets(blk):
+        """immutable locals of this block bound to an iterator chain and used exactly once"""
+        out = {}
+        for st in blk['stmts']:
+            if st['k'] == 'Let' and st.get('init') is not None and st.get('else') is None:
+                q = st['pat']
+                while q.get('k') in ('Deref', 'DerefPattern', 'AscribeUserType'): q = q.get('sub') or q.get('subpattern')
+                i0 = peel(st['init'])
+                if q.get('k') == 'Binding' and not q.get('mutable') and q.get('sub') is None and i0.get('k') == 'Call' and \
+                        (callee_decl(i0) or '') in ('std::iter::Iterator::map', 'std::iter::Iterator::filter', 'std::iter::Iterator::flat_map', 'std::iter::Iterator::enumerate'):
+                    uses = sum(1 for y in walk(blk) if y['k'] in ('VarRef', 'UpvarRef') and y['var'] == q['var'])
+                    if uses == 1: out[q['var']] = st['init']
+        return out
+    def rewrite(x, lets):
+        if isinstance(x, list): return [rewrite(y, lets) for y in x]
+        if not isinstance(x, dict): return x
+        if x.get('k') == 'Block':
+            lets = dict(lets); lets.update(chain_lets(x))
+        if x.get('k') == 'Match' and x.get('source') == 'ForLoopDesugar' and x.get('synthetic') != 'iter-chain':
+            sc = peel(x['scrutinee'])
+            if sc.get('k') == 'Call' and callee_decl(sc) == 'std::iter::IntoIterator::into_iter' and sc['args']:
+                some = None
+                for m_ in walk(x['arms'][0]['body']):
+                    if m_['k'] == 'Match' and m_.get('source') == 'ForLoopDesugar':
+                        for a_ in m_['arms']:
+                            if a_['pat'].get('k') == 'Variant' and a_['pat'].get('variant') == 'Some' and a_['pat'].get('subs'): some = a_
+                        break
+                if some is not None:
+                    body_block = rewrite(some['body'], lets)
+                    r = lower(sc['args'][0], some['pat']['subs'][0]['pat'], body_block, lets, x.get('loc'), x.get('ty'))
+                    if r is not None: return r
+        if x.get('k') == 'Call' and callee_decl(x) == 'std::iter::Extend::extend' and len(x.get('args', [])) == 2:
+            v = fresh('elem')
+            vref = {'k': 'VarRef', 'var': v, 'loc': x.get('loc'), 'ty': x.get('ty')}
+            push = {'k': 'Call', 'callee': {'def': 'std::vec::Vec::push', 'res': 'std::vec::Vec::push'}, 'args': [rewrite(x['args'][0], lets), vref], 'loc': x.get('loc'), 'ty': x.get('ty'),
+                    'from_hir_call': True, 'synthetic': 'iter-chain'}
+            vpat = {'k': 'Binding', 'name': 'elem', 'var': v, 'by_ref': False, 'mutable': False, 'sub': None, 'loc': x.get('loc')}
+            r = lower(x['args'][1], vpat, block([{'k': 'Expr', 'expr': push}], x.get('loc'), x.get('ty')), lets, x.get('loc'), x.get('ty'))
+            if r is not None: return r
+        return {k_: (rewrite(v, lets) if isinstance(v, (dict, list)) else v) for k_, v in x.items()}
+    return rewrite(body, {})
+
+def hoist_try_blocks(body):
+    """a copy of `body` in which the statements of an inlined helper that sits under a `?` are statements of the caller:
+        { s1; ..; v }?;        =>   s1; ..; v?;          (also for `let x = { s1; ..; v }?;` and for a plain `let x = { s1; ..; v };`)
+    the locals of an inlined body are its own, so nothing is captured"""
+    def peel_use(x):
+        while isinstance(x, dict) and x.get('k') in ('Use', 'NeverToAny', 'Scope'): x = x.get('source') or x.get('value')
+        return x
+    def split(e):
+        """(statements to run first, the expression that remains) for a statement's expression"""
+        p = peel_use(e)
+        if isinstance(p, dict) and p.get('k') == 'Match' and 'TryDesugar' in str(p.get('source')):
+            sc = p['scrutinee']
+            if sc.get('k') == 'Call' and len(sc.get('args', [])) == 1:
+                inner = peel_use(sc['args'][0])
+                if isinstance(inner, dict) and inner.get('k') == 'Block' and inner.get('inlined_from') and inner.get('stmts') and inner.get('expr') is not None and \
+                        not any(y['k'] in ('Break', 'Continue') for y in walk(inner)):
+                    pre, rest = split(inner['expr'])
+                    sc2 = dict(sc); sc2['args'] = [rest]
+                    p2 = dict(p); p2['scrutinee'] = sc2
+                    return [rw(st) for st in inner['stmts']] + pre, p2
+        if isinstance(p, dict) and p.get('k') == 'Block' and p.get('inlined_from') and p.get('stmts') and p.get('expr') is not None and \
+                not any(y['k'] in ('Break', 'Continue', 'Return') for y in walk(p)):
+            pre, rest = split(p['expr'])
+            return [rw(st) for st in p['stmts']] + pre, rest
+        return [], e
+    def rw(x):
+        if isinstance(x, list): return [rw(y) for y in x]
+        if not isinstance(x, dict): return x
+        if x.get('k') == 'Block':
+            out = []
+            for st in x['stmts']:
+                tgt = 'expr' if st['k'] == 'Expr' else 'init' if st['k'] == 'Let' and st.get('init') is not None and st.get('else') is None else None
+                if tgt is not None:
+                    pre, rest = split(st[tgt])
+                    if pre:
+                        out.extend(pre)
+                        st2 = dict(st); st2[tgt] = rw(rest); out.append(st2)
+                        continue
+                out.append(rw(st))
+            o = {k_: (rw(v) if isinstance(v, (dict, list)) and k_ != 'stmts' else v) for k_, v in x.items()}
+            o['stmts'] = out
+            if x.get('expr') is not None:
+                pre, rest = split(x['expr'])
+                if pre: o['stmts'] = out + pre; o['expr'] = rw(rest)
+            return o
+        return {k_: (rw(v) if isinstance(v, (dict, list)) else v) for k_, v in x.items()}
+    return rw(body)
+
+def split_tuple_lets(body):
+    """a copy of `body` in which `let (a, b) = (x, y);` reads as `let a = x; let b = y;` (components evaluated in the same order)"""
+    def peel_use(x):
+        while isinstance(x, dict) and x.get('k') in ('Use', 'NeverToAny', 'Scope'): x = x.get('source') or x.get('value')
+        return x
+    def rw(x):
+        if isinstance(x, list): return [rw(y) for y in x]
+        if not isinstance(x, dict): return x
+        if x.get('k') == 'Block':
+            out = []
+            for st in x['stmts']:
+                if st['k'] == 'Let' and st.get('init') is not None and st.get('else') is None:
+                    q = st['pat']
+                    while q.get('k') in ('AscribeUserType',): q = q.get('subpattern') or q.get('sub')
+                    i0 = peel_use(st['init'])
+                    if q.get('k') == 'Leaf' and 'adt' not in q and i0.get('k') == 'Tuple' and len(q.get('subs', [])) == len(i0['fields']) and \
+                            sorted(sp['field'] for sp in q['subs']) == list(range(len(i0['fields']))):
+                        for sp in sorted(q['subs'], key=lambda z: z['field']):
+                            out.append({'k': 'Let', 'pat': sp['pat'], 'init': rw(i0['fields'][sp['field']]), 'else': None, 'loc': st.get('loc'), 'span': st.get('span'), 'synthetic': 'tuple-let'})
+                        continue
+                out.append(rw(st))
+            o = {k_: (rw(v) if isinstance(v, (dict, list)) and k_ != 'stmts' else v) for k_, v in x.items()}
+            o['stmts'] = out
+            return o
+        return {k_: (rw(v) if isinstance(v, (dict, list)) else v) for k_, v in x.items()}
+    return rw(body)
+
+def counting_whiles_as_for(body):
+    """a copy of `body` in which a counting while loop reads as the `for` over a range it spells out:
+        let mut i = A; while i < B { BODY; i += 1; }      =>      for i in A..B { BODY }          (`i <= B`  =>  A..=B)
+    Only when nothing else writes i, BODY neither continues nor breaks this loop, B does not mention anything BODY writes, and i is not
+    read after the loop (there it would hold B, in the `for` form it is gone)."""
+    import copy
+    def peel(x):
+        while isinstance(x, dict) and (x.get('k') in ('Use', 'NeverToAny', 'Scope') or (x.get('k') == 'Block' and not x.get('stmts') and x.get('expr') is not None)):
+            x = x.get('source') or x.get('value') or x.get('expr')
+        return x
+    def vars_of(e): return set(y['var'] for y in walk(e) if y['k'] in ('VarRef', 'UpvarRef'))
+    def written(e):
+        out = set()
+        for y in walk(e):
+            if y['k'] in ('Assign', 'AssignOp'):
+                l = y['lhs']
+                while l.get('k') in ('Deref', 'Use', 'Field', 'Index', 'Borrow'): l = l.get('arg') or l.get('source') or l.get('lhs')
+                if l.get('k') in ('VarRef', 'UpvarRef'): out.add(l['var'])
+            if y['k'] == 'Borrow' and y.get('mut'):
+                l = y['arg']
+                while l.get('k') in ('Deref', 'Use', 'Field', 'Index'): l = l.get('arg') or l.get('source') or l.get('lhs')
+                if l.get('k') in ('VarRef', 'UpvarRef'): out.add(l['var'])
+        return out
+    def leaves_this_loop(e):
+        """a break / continue in e that is not inside a nested loop"""
+        def rec(x):
+            if isinstance(x, list): return any(rec(y) for y in x)
+            if not isinstance(x, dict): return False
+            if x.get('k') in ('Break', 'Continue'): return True
+            if x.get('k') == 'Loop': return any(y['k'] in ('Break', 'Continue') and y.get('label') is not None for y in walk(x))
+            if x.get('k') == 'Closure': return False
+            return any(rec(v) for k_, v in x.items() if isinstance(v, (dict, list)) and k_ not in ('ty', 'pat'))
+        return rec(e)
+    def as_for(let, loop, later):
+        q = let['pat']
+        while q.get('k') in ('Deref', 'DerefPattern', 'AscribeUserType'): q = q.get('sub') or q.get('subpattern')
+        if q.get('k') != 'Binding' or not q.get('mutable') or q.get('sub') is not None or let.get('init') is None or let.get('else') is not None: return None
+        iv = q['var']
+        lp = peel(loop)
+        if not isinstance(lp, dict) or lp.get('k') != 'Loop': return None
+        b = lp['body']
+        while b.get('k') in ('Use', 'NeverToAny'): b = b['source']
+        if b.get('k') != 'Block' or b.get('stmts') or b.get('expr') is None or 'WhileLoop' not in str(b.get('exp')): return None
+        cond_if = peel(b['expr'])
+        if cond_if.get('k') != 'If' or cond_if['cond'].get('k') == 'Let' or cond_if.get('else') is None: return None
+        c = peel(cond_if['cond'])
+        if c.get('k') != 'Binary': return None
+        l, r = peel(c['lhs']), peel(c['rhs'])
+        if c['op'] in ('Lt', 'Le') and l.get('k') == 'VarRef' and l['var'] == iv: bound, incl = c['rhs'], c['op'] == 'Le'
+        elif c['op'] in ('Gt', 'Ge') and r.get('k') == 'VarRef' and r['var'] == iv: bound, incl = c['lhs'], c['op'] == 'Ge'
+        else: return None
+        then = cond_if['then']
+        while then.get('k') in ('Use', 'NeverToAny'): then = then['source']
+        if then.get('k') != 'Block' or then.get('expr') is not None or not then['stmts']: return None
+        last = then['stmts'][-1]
+        inc = peel(last['expr']) if last['k'] == 'Expr' else None
+        if inc is None: return None
+        ok_inc = False
+        if inc.get('k') == 'AssignOp' and inc['op'] in ('AddAssign', 'Add') and peel(inc['lhs']).get('k') == 'VarRef' and peel(inc['lhs'])['var'] == iv and \
+                peel(inc['rhs']).get('k') == 'Literal' and str(peel(inc['rhs']).get('value')) == '1': ok_inc = True
+        if inc.get('k') == 'Assign' and peel(inc['lhs']).get('k') == 'VarRef' and peel(inc['lhs'])['var'] == iv:
+            rr = peel(inc['rhs'])
+            if rr.get('k') == 'Binary' and rr['op'] == 'Add' and peel(rr['lhs']).get('k') == 'VarRef' and peel(rr['lhs'])['var'] == iv and str(peel(rr['rhs']).get('value')) == '1': ok_inc = True
+        if not ok_inc: return None
+        rest = then['stmts'][:-1]
+        restb = {'k': 'Block', 'stmts': rest, 'expr': None, 'loc': then.get('loc'), 'ty': then.get('ty'), 'targeted_by_break': False}
+        if iv in written(restb) or leaves_this_loop(rest): return None
+        if vars_of(bound) & (written(restb) | {iv}): return None
+        if any(iv in vars_of(st.get('expr') or st.get('init') or {'k': 'Tuple', 'fields': []}) for st in later): return None
+        if any(y['k'] == 'Closure' for y in walk(restb)): return None          # a closure may capture the counter by reference
+        loc = lp.get('loc'); ty = lp.get('ty')
+        ity = q.get('ty')
+        if incl:
+            rng = {'k': 'Call', 'callee': {'def': 'std::ops::RangeInclusive::new', 'res': 'std::ops::RangeInclusive::new'}, 'args': [let['init'], bound], 'loc': loc, 'ty': ty, 'from_hir_call': True, 'synthetic': 'counting-while'}
+        else:
+            rng = {'k': 'Adt', 'adt': 'std::ops::Range', 'adt_kind': 'Struct', 'variant': 'Range', 'variant_index': 0, 'base': None, 'loc': loc, 'ty': ty, 'synthetic': 'counting-while',
+                   'fields': [{'idx': 0, 'name': 'start', 'expr': let['init']}, {'idx': 1, 'name': 'end', 'expr': bound}]}
+        itv = 'iter#while%d' % id(lp)
+        pat = {'k': 'Binding', 'name': q.get('name'), 'var': iv, 'by_ref': False, 'mutable': False, 'sub': None, 'loc': q.get('loc'), 'ty': ity}
+        inner = {'k': 'Match', 'source': 'ForLoopDesugar', 'loc': loc, 'ty': ty, 'synthetic': 'counting-while',
+                 'scrutinee': {'k': 'Call', 'callee': {'def': 'std::iter::Iterator::next', 'res': 'std::iter::Iterator::next'}, 'loc': loc, 'ty': ty,
+                               'args': [{'k': 'Borrow', 'mut': True, 'loc': loc, 'ty': ty, 'arg': {'k': 'VarRef', 'var': itv, 'loc': loc, 'ty': ty}}]},
+                 'arms': [{'pat': {'k': 'Variant', 'adt': 'std::option::Option', 'variant': 'None', 'subs': [], 'nfields': 0}, 'guard': None, 'body': {'k': 'Break', 'label': None, 'value': None, 'loc': loc, 'ty': ty}},
+                          {'pat': {'k': 'Variant', 'adt': 'std::option::Option', 'variant': 'Some', 'nfields': 1, 'subs': [{'field': 0, 'pat': pat}]}, 'guard': None, 'body': rewrite(restb)}]}
+        return {'k': 'Match', 'source': 'ForLoopDesugar', 'loc': loc, 'ty': ty, 'synthetic': 'counting-while',
+                'scrutinee': {'k': 'Call', 'callee': {'def': 'std::iter::IntoIterator::into_iter', 'res': 'std::iter::IntoIterator::into_iter'}, 'loc': loc, 'ty': ty, 'args': [rng], 'from_hir_call': True},
+                'arms': [{'pat': {'k': 'Binding', 'name': 'iter', 'var': itv, 'by_ref': False, 'mutable': True, 'sub': None}, 'guard': None,
+                          'body': {'k': 'Loop', 'loc': loc, 'ty': ty, 'body': {'k': 'Block', 'stmts': [{'k': 'Expr', 'expr': inner}], 'expr': None, 'loc': loc, 'ty': ty, 'targeted_by_break': False}}}]}
+    def rewrite(x):
+        if isinstance(x, list): return [rewrite(y) for y in x]
+        if not isinstance(x, dict): return x
+        if x.get('k') == 'Block' and len(x.get('stmts') or []) >= 2:
+            stmts = x['stmts']; out = []; i = 0; changed = False
+            while i < len(stmts):
+                st = stmts[i]
+                if st['k'] == 'Let' and i + 1 < len(stmts) and stmts[i + 1]['k'] == 'Expr':
+                    later = stmts[i + 2:] + ([{'k': 'Expr', 'expr': x['expr']}] if x.get('expr') is not None else [])
+                    f = as_for(st, stmts[i + 1]['expr'], later)
+                    if f is not None:
+                        out.append({'k': 'Expr', 'expr': f}); i += 2; changed = True; continue
+                out.append(rewrite(st)); i += 1
+            o = {k_: (rewrite(v) if isinstance(v, (dict, list)) and k_ != 'stmts' else v) for k_, v in x.items()}
+            o['stmts'] = out
+            return o
         return {k_: (rewrite(v) if isinstance(v, (dict, list)) else v) for k_, v in x.items()}
     return rewrite(body)
 
